@@ -14,6 +14,7 @@ not `ran`".
 -/
 import AGH.Lemmas.Http
 import AGH.Gen.C11Routes
+import AGH.Spec.HttpGate
 namespace AGH.C11
 open AGH AGH.Bytes
 
@@ -40,7 +41,7 @@ theorem C11_public_within_property (p : Bytes) (h : isPublicResource p = true) :
 /-- If `optionalAuth` is anywhere in the chain, a user exists and the path is
 not public, the handler is entered only for authenticated requests. -/
 theorem C11_auth_gate (chain : List Wrapper) (h : Handler) (req : Req)
-    (hmem : .optionalAuth ∈ chain) (hu : req.usersExist = true)
+    (hmem : .optionalAuth ∈ chain) (hu : authRequired req = true)
     (hp : isPublicResource req.path = false) (hr : run chain h req = .ran) :
     authenticated req = true := by
   induction chain with
@@ -61,7 +62,7 @@ theorem C11_auth_gate (chain : List Wrapper) (h : Handler) (req : Req)
 /-- Strong form: without valid credentials the answer does not depend on the
 handler — it is never applied, so nothing it would do happens. -/
 theorem C11_no_side_effect (chain : List Wrapper) (req : Req)
-    (hmem : .optionalAuth ∈ chain) (hu : req.usersExist = true)
+    (hmem : .optionalAuth ∈ chain) (hu : authRequired req = true)
     (hp : isPublicResource req.path = false) (ha : authenticated req = false)
     (h₁ h₂ : Handler) : run chain h₁ req = run chain h₂ req := by
   induction chain with
@@ -78,10 +79,11 @@ theorem C11_no_side_effect (chain : List Wrapper) (req : Req)
 `postInstall`/`gzip` before it) and the installation is complete: a redirect to
 the login page for `/` and `/index.html`, 403 otherwise. -/
 theorem C11_denied_response (chain : List Wrapper) (h : Handler) (req : Req)
-    (hc : authFirst chain = true) (hu : req.usersExist = true) (hf : req.firstRun = false)
+    (hc : authFirst chain = true) (hu : authRequired req = true) (hf : req.firstRun = false)
     (hp : isPublicResource req.path = false) (ha : authenticated req = false) :
     run chain h req =
-      if req.path = pRoot ∨ req.path = pIndex then .redirect .login else .forbiddenAuth :=
+      if req.path = pRoot ∨ req.path = pIndex then .redirect (loginTarget req.glMode)
+      else .forbiddenAuth :=
   authFirst_denied chain h req hc hu hf hp ha
 
 /-! ## No other header takes part in the decision -/
@@ -93,7 +95,8 @@ headers): it answers `authDecision …` or, when that is `none`, calls the
 wrapped handler. -/
 theorem C11_auth_decision_factors (g : Handler) (req : Req) :
     optionalAuthW g req =
-      (authDecision req.path req.cookie req.basic req.usersExist).getD (g req) :=
+      (authDecision req.path req.cookie req.basic (authRequired req) req.glMode
+        (glProcessCookie req)).getD (g req) :=
   optionalAuthW_decision g req
 
 /-- For any chain: two requests that differ only in their other headers (an
@@ -110,7 +113,7 @@ theorem C11_auth_ignores_other_headers (chain : List Wrapper) (h : Handler) (a b
 nothing in what the wrappers do. -/
 theorem C11_headers_irrelevant (chain : List Wrapper) (req : Req) (hs : List (Bytes × Bytes)) :
     run chain (fun _ => .ran) { req with headers := hs } = run chain (fun _ => .ran) req :=
-  C11_auth_ignores_other_headers chain _ _ _ ⟨rfl, rfl, rfl, rfl, rfl, rfl, rfl, rfl⟩ rfl
+  C11_auth_ignores_other_headers chain _ _ _ ⟨rfl, rfl, rfl, rfl, rfl, rfl, rfl, rfl, rfl, rfl, rfl, rfl⟩ rfl
 
 /-! ## Method and content type -/
 
@@ -211,6 +214,15 @@ handed a different registration function. -/
 theorem C11_register_flows : Gen.regFlows.all flowOK = true := by
   decide +kernel
 
+/-- Every function named on the path from the mux to a registered handler (the
+wrappers, the registrar, the gl-inet token check, the session and user lookups
+and everything they call, module or library) is one the model was written
+against: nothing unreviewed — no extra shortcut, no rewriting of the token
+name — sits on the gate path. -/
+theorem C11_gate_path_reviewed :
+    Gen.gateCallees.all (fun n => reviewedGateCallees.contains n) = true := by
+  decide +kernel
+
 /-- No two rows of the table have the same pattern (so "the route serving a
 pattern" is well defined; the real mux would panic on a duplicate). -/
 theorem C11_patterns_distinct : (Gen.routes.map (·.pattern)).Nodup := by
@@ -223,12 +235,15 @@ account exists and the installation is over, a request to a non-public path
 without a valid session cookie or correct basic credentials gets 403 or the
 login redirect, and the answer does not depend on the handler. -/
 theorem C11_unauthenticated_never_runs (r : Route) (hr : r ∈ Gen.routes) (req : Req)
+    (issued : GLStat) (hfs : nameResolves req issued) (hnow : glTimeout < req.now)
     (hs : servedBy r.pattern req.path = true)
-    (hu : req.usersExist = true) (hf : req.firstRun = false)
-    (hp : specPublicPath req.path = false) (ha : specAuthenticated req = false) :
+    (hu : (req.usersExist || req.glMode) = true) (hf : req.firstRun = false)
+    (hp : specPublicPath req.path = false) (ha : specAuthenticated req issued = false) :
     (∀ h₁ h₂ : Handler, run r.chain h₁ req = run r.chain h₂ req) ∧
     (∀ h : Handler, run r.chain h req = .forbiddenAuth ∨ run r.chain h req = .forbiddenPre ∨
-      run r.chain h req = .redirect .login) := by
+      run r.chain h req = .redirect (loginTarget req.glMode)) := by
+  have hu' : authRequired req = true := by
+    unfold authRequired; rw [Bool.or_comm]; exact hu
   have hp' : isPublicResource req.path = false := by
     cases hq : isPublicResource req.path with
     | false => rfl
@@ -236,16 +251,112 @@ theorem C11_unauthenticated_never_runs (r : Route) (hr : r ∈ Gen.routes) (req 
   have ha' : authenticated req = false := by
     cases hq : authenticated req with
     | false => rfl
-    | true => rw [auth_sub_spec _ hq] at ha; cases ha
+    | true => rw [auth_sub_spec _ issued hfs hnow hq] at ha; cases ha
   rcases (C11_all_routes_gated' r hr).1 with h1 | h1 | h1
   · rw [allowed_served_public _ _ h1 hs] at hp; cases hp
   · refine ⟨fun h₁ h₂ => ?_, fun h => Or.inr (Or.inl (preInstallFirst_denied _ h req h1 hf))⟩
     rw [preInstallFirst_denied _ h₁ req h1 hf, preInstallFirst_denied _ h₂ req h1 hf]
-  · refine ⟨fun h₁ h₂ => C11_no_side_effect _ req h1.1 hu hp' ha' h₁ h₂, fun h => ?_⟩
-    rw [authFirst_denied _ h req h1.2 hu hf hp' ha']
+  · refine ⟨fun h₁ h₂ => C11_no_side_effect _ req h1.1 hu' hp' ha' h₁ h₂, fun h => ?_⟩
+    rw [authFirst_denied _ h req h1.2 hu' hf hp' ha']
     split
     · exact Or.inr (Or.inr rfl)
     · exact Or.inl rfl
+
+/-! ## gl-inet mode: the router's token file is the credential, by name -/
+
+/-- In gl-inet mode authentication is always required, user or no user. -/
+theorem C11_gl_always_required (req : Req) (hg : req.glMode = true) : authRequired req = true := by
+  simp [authRequired, hg]
+
+/-- The token gate opens only in gl-inet mode, for a request whose `Admin-Token`
+cookie is a non-empty value without separator, when the token of exactly that
+name is fresh. -/
+theorem C11_gl_token_by_name (req : Req) (issued : GLStat) (hfs : nameResolves req issued)
+    (hnow : glTimeout < req.now) (h : glProcessCookie req = true) :
+    req.glMode = true ∧
+    ∃ v, req.glCookie = some v ∧ v ≠ [] ∧ slash ∉ v ∧ tokenFresh req.now issued = true := by
+  unfold glProcessCookie at h
+  simp only [Bool.and_eq_true] at h
+  exact ⟨h.1.1, glCheck_by_name req issued hfs hnow h.2⟩
+
+/-- A file system as the gate sees it, with NOTHING assumed about its content:
+`dir name` is whatever entry the token directory holds under
+`gl_token_<name>` (a token, any other file, a directory, nothing); `other v` is
+whatever a value WITH separators resolves to (any existing file anywhere, e.g.
+through a directory `gl_token_x`). -/
+def osLookup (dir other : Bytes → GLStat) (v : Bytes) : GLStat :=
+  if slash ∈ v then other v else dir v
+
+/-- The repaired gate, over an arbitrary file system: whatever files and
+directories exist, a request is authenticated by the gl-inet cookie only if the
+value is a plain name (non-empty, no separator) and the entry of exactly that
+name in the token directory is a fresh token.  No hypothesis about values with
+separators is needed — the only thing asked of the file system is that a path
+ending in a separator is not a readable file. -/
+theorem C11_gl_authenticated_plain_fresh (dir other : Bytes → GLStat) (req : Req)
+    (hos : ∀ v, req.glCookie = some v → req.glStat = osLookup dir other v)
+    (hdirsep : ∀ d, other [slash] ≠ .date d)
+    (hnow : glTimeout < req.now) (h : glProcessCookie req = true) :
+    req.glMode = true ∧
+    ∃ v, req.glCookie = some v ∧ v ≠ [] ∧ slash ∉ v ∧ tokenFresh req.now (dir v) = true := by
+  unfold glProcessCookie at h
+  simp only [Bool.and_eq_true] at h
+  refine ⟨h.1.1, ?_⟩
+  obtain ⟨v, hv, hp, hf⟩ := glCheck_sub_fresh req hnow h.2
+  rcases plainName_cases v hp with ⟨hne, hns⟩ | hsl
+  · refine ⟨v, hv, hne, hns, ?_⟩
+    have := hos v hv
+    simp only [osLookup, hns, if_false] at this
+    rw [← this]; exact hf
+  · subst hsl
+    exfalso
+    have := hos _ hv
+    simp only [osLookup, List.mem_singleton, if_true] at this
+    rw [this] at hf
+    unfold tokenFresh at hf
+    cases hs : other [slash] with
+    | missing => simp [hs] at hf
+    | short => simp [hs] at hf
+    | date d => exact hdirsep d hs
+
+/-- A value with a separator in it (`x/../passwd`, `dir/inner`, `/x`, `x/`),
+or an empty one, never authenticates, whatever exists in the file system. -/
+theorem C11_gl_path_values_rejected (req : Req) (v : Bytes) (hv : req.glCookie = some v)
+    (hbad : v = [] ∨ (slash ∈ v ∧ v ≠ [slash])) : glCheckToken req = false := by
+  unfold glCheckToken
+  rw [hv]
+  have : plainName v = false := by
+    unfold plainName
+    rcases hbad with rfl | ⟨hm, hne⟩
+    · rfl
+    · simp [hne]; exact fun _ => hm
+  simp [this]
+
+/-- Behind the gate, in gl-inet mode, a non-public path reaches its handler only
+with a fresh token of exactly the cookie's name, a valid session or correct
+basic credentials. -/
+theorem C11_gl_gate (chain : List Wrapper) (h : Handler) (req : Req) (issued : GLStat)
+    (hfs : nameResolves req issued) (hnow : glTimeout < req.now)
+    (hmem : .optionalAuth ∈ chain) (hg : req.glMode = true)
+    (hp : isPublicResource req.path = false) (hr : run chain h req = .ran) :
+    specAuthenticated req issued = true :=
+  auth_sub_spec req issued hfs hnow
+    (C11_auth_gate chain h req hmem (C11_gl_always_required req hg) hp hr)
+
+/-- A missing, unreadable or too short token file, and a token older than the
+timeout, never authenticate (clock past 1970-01-01 01:00). -/
+theorem C11_gl_stale_or_missing_denied (req : Req) (hnow : glTimeout < req.now)
+    (hst : req.glStat = .missing ∨ req.glStat = .short ∨
+      ∃ d, req.glStat = .date d ∧ d + glTimeout < req.now) :
+    glProcessCookie req = false := by
+  cases hq : glProcessCookie req with
+  | false => rfl
+  | true =>
+    unfold glProcessCookie at hq
+    simp only [Bool.and_eq_true] at hq
+    obtain ⟨v, _, _, hf⟩ := glCheck_sub_fresh req hnow hq.2
+    rcases hst with h | h | ⟨d, h, hd⟩ <;> rw [h] at hf <;> simp [tokenFresh] at hf
+    omega
 
 /-- For every route declared with a state-changing method, the handler is
 entered only with that method and a JSON content type (or no body). -/
@@ -266,11 +377,12 @@ theorem C11_state_changing_body_json (r : Route) (hr : r ∈ Gen.routes) (req : 
 
 /-- The model satisfies the spec monitor on every request, for every route of
 the regenerated table that can serve it and for the mux's own answers. -/
-theorem C11_model_meets_spec (s : Served) (req : Req)
+theorem C11_model_meets_spec (s : Served) (req : Req) (issued : GLStat)
+    (hfs : nameResolves req issued) (hnow : glTimeout < req.now)
     (hs : match s with
       | .route r => r ∈ Gen.routes ∧ servedBy r.pattern req.path = true
       | _ => True) :
-    specOK req s.declared (serve s req) = true := by
+    specOK req s.declared (serve s req) issued = true := by
   rw [specOK_iff]
   cases s with
   | muxRedirect => simp [serve, allowedDenial]
@@ -283,8 +395,11 @@ theorem C11_model_meets_spec (s : Served) (req : Req)
       unfold protectedReq at hprot
       simp only [Bool.and_eq_true, Bool.not_eq_true'] at hprot
       obtain ⟨⟨⟨hu, hf⟩, hp⟩, ha⟩ := hprot
-      rcases (C11_unauthenticated_never_runs r hr req hsv hu hf hp ha).2 (fun _ => .ran) with
-        h | h | h <;> rw [h] <;> rfl
+      rcases (C11_unauthenticated_never_runs r hr req issued hfs hnow hsv hu hf hp ha).2
+        (fun _ => .ran) with h | h | h
+      · rw [h]; rfl
+      · rw [h]; rfl
+      · rw [h]; cases req.glMode <;> rfl
     · intro hran
       have hran' : run r.chain (fun _ => .ran) req = .ran := by
         injection hran
@@ -325,8 +440,8 @@ example : (Gen.routes.any fun r =>
     run r.chain (fun _ => .ran) (reqStatus .none .none) == .forbiddenAuth) = true := by
   decide +kernel
 example : specPublicPath (reqStatus .none .none).path = false ∧
-    specAuthenticated (reqStatus .none .none) = false ∧
-    protectedReq (reqStatus .none .none) = true := by decide
+    specAuthenticated (reqStatus .none .none) .missing = false ∧
+    protectedReq (reqStatus .none .none) .missing = true := by decide
 -- a state-changing route: wrong method 405, form content type 415, JSON passes
 example : run chainPOST (fun _ => .ran)
     { reqStatus .valid .none with method := sPOST, ctype := sAppJSON, contentLength := 2 } = .ran := by
@@ -335,6 +450,29 @@ example : run chainPOST (fun _ => .ran) (reqStatus .valid .none) = .methodNotAll
 example : run chainPOST (fun _ => .ran)
     { reqStatus .valid .none with method := sPOST, ctype := [120], contentLength := 2 } = .unsupportedMedia := by
   decide
+-- gl-inet mode: a fresh token of the cookie's name opens the gate; a stale one, a
+-- missing one and no cookie at all do not; `/` goes to the router's login page
+private def reqGL (c : Option Bytes) (st : GLStat) : Req :=
+  { reqStatus .none .none with usersExist := false, glMode := true, glCookie := c, glStat := st,
+                               now := 1800000000 }
+example : run chainGET (fun _ => .ran) (reqGL (some [116]) (.date 1799999000)) = .ran := by decide
+example : run chainGET (fun _ => .ran) (reqGL (some [116]) (.date 1799990000)) = .forbiddenAuth := by
+  decide
+example : run chainGET (fun _ => .ran) (reqGL (some [116]) .missing) = .forbiddenAuth := by decide
+example : run chainGET (fun _ => .ran) (reqGL (some [116]) .short) = .forbiddenAuth := by decide
+example : run chainGET (fun _ => .ran) (reqGL none (.date 1799999000)) = .forbiddenAuth := by decide
+example : run [.postInstall, .optionalAuth, .gzip] (fun _ => .ran)
+    { reqGL none .missing with path := pRoot } = .redirect .glRouter := by decide
+-- a value with a separator is rejected even when the OS finds a fresh-looking file there
+example : run chainGET (fun _ => .ran)
+    (reqGL (some [120, 47, 46, 46, 47, 112]) (.date 1799999000)) = .forbiddenAuth := by decide
+example : run chainGET (fun _ => .ran) (reqGL (some []) (.date 1799999000)) = .forbiddenAuth := by
+  decide
+-- the monitor rejects a handler run on a token the OS found under another name
+example : specOK (reqGL (some [120, 47, 46, 46, 47, 112]) (.date 1799999000)) (some sGET) (.resp .ran)
+    .missing = false := by decide
+example : specOK (reqGL (some [116]) (.date 1799999000)) (some sGET) (.resp .ran)
+    (.date 1799999000) = true := by decide
 -- a CORS-preflight-looking request without credentials is denied like any other
 private def reqPreflight : Req :=
   { path := pStatus, method := [79, 80, 84, 73, 79, 78, 83], cookie := .none, basic := .none,
